@@ -76,7 +76,7 @@ def case_strategy(draw):
                          None if same else draw(key_strategy()),
                          draw(st.sampled_from([None, None, None, 0, 1, 2]))])
         probes.append([key, warm,
-                       draw(st.integers(0, 40)) if draw(st.booleans())
+                       draw(st.integers(0, 40)) if draw(st.integers(0, 9)) < 8
                        else None])
     return {'bp': bp, 'regs': regs, 'subs': subs, 'probes': probes}
 
@@ -124,7 +124,7 @@ def run_case(case, cfg, out):
                          s is req[pos]] if req[pos] is not None else
                         U.all_lookup_specs()) + [None]
                 req[pos] = pool[pick % len(pool)]
-            if pick % 7 == 0:
+            if pick % 3 == 1:
                 name = NAMES[(NAMES.index(name) + 1) % len(NAMES)]
             prov = prov0 if keepprov else U.provs[ppick % len(U.provs)]
         elif regop[0] == 'new':
@@ -265,6 +265,14 @@ def run_case(case, cfg, out):
         L = reg.lookup(specs, prov, name, D)
         app = M.applicable(r, specs, prov, name)
         all_ = reg.lookupAll(specs, prov)
+        if not all(isinstance(x, tuple) and len(x) == 2 and
+                   isinstance(x[1], Factory) for x in all_):
+            out.fail('lookupAll-foreign', '%s: lookupAll() returned %r' % (
+                stage, all_))
+            return
+        if L is not D and not isinstance(L, Factory):
+            out.fail('lookup-foreign', '%s: lookup() returned %r' % (stage, L))
+            return
         d = dict(all_)
         if (len(d) >= 2 or len(app) >= 2) and warm:
             out.nontrivial = True
@@ -338,6 +346,11 @@ def run_case(case, cfg, out):
         # subscribers
         for sprov in (prov, None):
             subs = list(reg.subscriptions(specs, sprov))
+            if not all(isinstance(s, Factory) for s in subs):
+                out.fail('subscriptions-foreign', '%s: subscriptions() '
+                         'returned %r, which are not subscribed values' % (
+                             stage, subs))
+                return
             for s in subs:
                 del s.calls[:]
             res = reg.subscribers(objs, sprov)
